@@ -394,6 +394,7 @@ def viol_context(path, c, ln):
     outst, reqs = {}, {}
     rid_of_viol = None
     mqconn = {}
+    pendres = {}
     for x in lines[:ln]:
         g = x.split("\t")
         # a call/auth answered with a resource response takes a direct subscription on that resource while the
@@ -402,8 +403,10 @@ def viol_context(path, c, ln):
             mqconn[g[1]] = g[5]
         elif g[0] == "MQRESP" and len(g) > 3 and g[2] == "resource" and mqconn.get(g[1]) == c:
             outst[g[3]] = outst.get(g[3], 0) + 1
+            pendres[g[3]] = pendres.get(g[3], 0) + 1
         elif g[0] == "RESP" and len(g) > 4 and g[1] == c and g[3] == "okrid":
             outst[g[4]] = outst.get(g[4], 0) - 1
+            pendres[g[4]] = pendres.get(g[4], 0) - 1
         if g[0] == "REQ" and len(g) > 4 and g[1] == c:
             reqs[g[2]] = (g[3], g[4])
             if g[3] in ("subscribe", "get", "call", "auth", "new"):
@@ -421,6 +424,10 @@ def viol_context(path, c, ln):
         elif g[0] == "EV" and len(g) > 3 and g[1] == c and g[3] in ("delete", "unsub") and outst.get(g[2], 0) > 0:
             # ... or a delete / unsubscribe event reached the client while its request for that id was outstanding
             ctx.append("revoked-while-pending:" + g[2])
+    # a resource response (call/auth/new answered with a resource) is pending for these ids at the violation
+    for rid0, n0 in pendres.items():
+        if n0 > 0:
+            ctx.append("pending-resource-response:" + rid0)
     # earlier in this history the connection was sent events right after a get response (recorded finding
     # KF-GET-EVENTS): resources handed over inside such events are unknown to the client from then on
     after_get = False
